@@ -230,6 +230,11 @@ def make_chain(rng):
             #  incompatible change once another step of type `T?` was changed in the same protocol; a verdict matter, C06)
             d.steps.append(("evo7", M.Opt(M.Prim(rng.choice(["int16", "int8"]))), False))
             d.steps.append(("evo10", M.Vec(M.Opt(M.Prim(rng.choice(["int32", "uint16", "float32"])))), False))
+            # steps that carry the names the generated C++ gives its own parameters (`value` of the single-item and scalar
+            # overloads, `values` of the batched one), with types that documented edits may widen
+            if d is [x for x in base.defs() if isinstance(x, M.Protocol)][0]:
+                d.steps.append(("value", M.Prim(rng.choice(["int32", "uint16", "float32"])), False))
+                d.steps.append(("values", M.Prim(rng.choice(["int32", "int16", "float32"])), True))
     # named types whose definition gets wider between versions (`EvoId: float` -> `EvoId: double`), used as a value, as the
     # element of a vector, as stream item and as record field: the name stays, its meaning per version differs
     wal = ()
@@ -334,7 +339,7 @@ def make_chain(rng):
     k = rng.fork("chainshape")
     newest = E.with_versions(base, rng.fork("ver"), k.choice([1, 2, 2, 3]), partial=True, must_edit=must,
                              order=k.choice(["oldest_first", "oldest_first", "newest_first", "shuffled"]), p_new_protocol=k.choice([0.0, 0.4]),
-                             widen_steps=("evo3", "evo4", "evo6", "evo7", "evo10"), widen_aliases=wal, union_steps=ust, to_union_steps=tust, tail_records=tails, fixed_vector_records=fvr)
+                             widen_steps=("evo3", "evo4", "evo6", "evo7", "evo10", "value", "values"), widen_aliases=wal, union_steps=ust, to_union_steps=tust, tail_records=tails, fixed_vector_records=fvr)
     # where the previous versions come from: directories next to the package, or commits of one git repository named by URL
     newest.versions_from_git = k.fork("git").chance(0.3)
     return newest
